@@ -54,7 +54,11 @@ func verifTV(c system.Collection) int {
 
 // verifCriterion draws the result of a criterion for one item; meaning: 0 false, 1 true, 2 empty, 3 multi-item (error).
 func verifCriterion(label string) (system.Collection, int) {
-	switch verifrt.Choose(label+".form", 6) {
+	switch verifrt.Choose(label+".form", 8) {
+	case 6: // a complex element counts as true like any other single non-Boolean item
+		return system.Collection{&dtpb.HumanName{Family: &dtpb.String{Value: verifrt.NondetString(label+".fam", 1)}}}, 1
+	case 7: // so does a FHIR primitive that is not a boolean
+		return system.Collection{&dtpb.Code{Value: verifrt.NondetString(label+".code", 1)}}, 1
 	case 0:
 		v := verifrt.NondetBool(label + ".b")
 		return system.Collection{system.Boolean(v)}, b2i(v)
